@@ -86,6 +86,15 @@ func genC03(repo string) (string, error) {
 		return true
 	})
 	o.strList("grant_stores", stores, "expireTime stores of lease.Grant")
+	// keepAliveWorker: the renewed local expiry is computed from the time the request started
+	if err := o.skeleton(le, "lease", "keepAliveWorker", "skel_keepAliveWorker",
+		goast.SkelOpt{Calls: set("KeepAliveOnce", "Now"), Assigns: set("expire", "start"), Conds: true}); err != nil {
+		return "", err
+	}
+	if err := o.skeleton(le, "lease", "KeepAlive", "skel_KeepAlive",
+		goast.SkelOpt{Calls: set("keepAliveWorker", "Store", "After"), Assigns: set("maxExpire"), Conds: true}); err != nil {
+		return "", err
+	}
 
 	mb, err := goast.Load(repo, "server/member/member.go")
 	if err != nil {
